@@ -3,6 +3,7 @@ package main
 // Loop frames: what a loop body may modify, computed from the SSA of the body.
 
 import (
+	"go/token"
 	"go/types"
 	"sort"
 	"strings"
@@ -190,6 +191,12 @@ func (ex *Exec) scanMods(fr *frame, l *Loop, st *State) *loopMods {
 					}
 					m.get(vn).whole = true
 					m.get(hn).whole = true
+				case *ssa.UnOp:
+					if in.Op == token.ARROW {
+						el := in.X.Type().Underlying().(*types.Chan).Elem()
+						ex.hintChanRegions(el)
+						m.get("chan:" + shortTypeName(el) + ".nrecv").whole = true
+					}
 				case *ssa.Send:
 					el := in.Chan.Type().Underlying().(*types.Chan).Elem()
 					ex.hintChanRegions(el)
@@ -207,6 +214,11 @@ func (ex *Exec) scanMods(fr *frame, l *Loop, st *State) *loopMods {
 							ex.hintChanRegions(el)
 							m.get("chan:" + shortTypeName(el) + ".sent").whole = true
 							m.get("chan:" + shortTypeName(el) + ".nsent").whole = true
+						}
+						if s.Dir == types.RecvOnly {
+							el := s.Chan.Type().Underlying().(*types.Chan).Elem()
+							ex.hintChanRegions(el)
+							m.get("chan:" + shortTypeName(el) + ".nrecv").whole = true
 						}
 					}
 				case ssa.CallInstruction:
@@ -442,5 +454,8 @@ func (ex *Exec) hintChanRegions(el types.Type) {
 	}
 	if _, ok := ex.regionSorts[base+".nsent"]; !ok {
 		ex.regionSorts[base+".nsent"] = p.ArraySort(IntSort, IntSort)
+	}
+	if _, ok := ex.regionSorts[base+".nrecv"]; !ok {
+		ex.regionSorts[base+".nrecv"] = p.ArraySort(IntSort, IntSort)
 	}
 }
